@@ -281,7 +281,16 @@ def fst_pypi_obligations(ctx, facts, key, lowercaser_key, rule="FST-PYPI"):
     site = fn_site(facts, key)
     loop = scanact.char_loop(facts, body)
     st, paths, is_elem, exit_none = scanact.loop_transitions(facts, summ, body, loop)
-    ctx.ob(rule, "the loop reads the chars of the name", norm(loop["subject"]) == ("arg", 1), fn=key, site=site, detail=nshow(norm(loop["subject"])))
+    subj = norm(loop["subject"])
+    # the scan may start at the first dash char, the part before it lower-cased as a whole (see `prefixed` below)
+    SPLIT_AT = "core::str::<impl str>::split_at"
+    FIND = "core::str::<impl str>::find"
+    prefixed = None
+    if subj[0] == "field" and subj[2] == "1" and subj[1][0] == "call" and subj[1][1] == SPLIT_AT and subj[1][2][0] == ("arg", 1):
+        pos = subj[1][2][1]
+        if pos[0] in ("some", "ok") and pos[1][0] == "call" and pos[1][1] == FIND and pos[1][2][0] == ("arg", 1) and set(models.const_chars_t(pos[1][2][1]) or ()) == {45, 95, 46}:
+            prefixed = subj[1]
+    ctx.ob(rule, "the loop reads the chars of the name", subj == ("arg", 1) or prefixed is not None, fn=key, site=site, detail=nshow(subj))
     if len(st) != 1:
         raise AnchorError("pypi normaliser: expected one loop-carried flag, found %d" % len(st), key)
     S = next(iter(st))
@@ -289,8 +298,17 @@ def fst_pypi_obligations(ctx, facts, key, lowercaser_key, rule="FST-PYPI"):
     U = boolsum.universe()
     table = {}
     acc = None
+    # paths that do the same thing are one transition: their character sets unite (`c.is_ascii() && sep(c as u8)` puts
+    # the non-separators on two paths, the non-ASCII ones and the ASCII ones)
+    merged = {}
     for p in paths:
+        sig = (repr(sorted((k_, repr(v_)) for k_, v_ in p["pre"].items())), repr([(e[0], e[1], e[2]) for e in p["effects"]]), repr(sorted(p["assign"].items())), p["exit"])
         cs = scanact.cond_set(p["conds"], facts)
+        if sig in merged:
+            merged[sig][1] |= cs
+        else:
+            merged[sig] = [p, cs]
+    for p, cs in merged.values():
         cls = "dash" if cs == DASH else "other" if cs == (U & ~DASH) else "?%s" % boolsum.set_to_ranges(cs, 6)
         pres = p["pre"].get(S)
         pre = None
@@ -334,8 +352,20 @@ def fst_pypi_obligations(ctx, facts, key, lowercaser_key, rule="FST-PYPI"):
         for (b, i, st_) in body.partial_writes(l):
             if not body.is_cleanup(b) and i != "term" and st_["s"] == "assign":
                 stores.append((b, norm(body._rv_term(st_["rv"]))))
-    oks = len(stores) == 1 and acc is not None and stores[0][1][0] == "var" and stores[0][1][1] == acc[1] and stores[0][1][2][0] == "call" and stores[0][1][2][1].endswith("::new") and stores[0][0] in body.reachable_from(exit_none)
-    ctx.ob(rule, "after the loop `*name = result` with result started empty", oks, fn=key, site=site, detail=str([(b, nshow(t)[:80]) for b, t in stores]))
+    oks = len(stores) == 1 and acc is not None and stores[0][1][0] == "var" and stores[0][1][1] == acc[1] and stores[0][1][2][0] == "call" and stores[0][0] in body.reachable_from(exit_none)
+    if oks and prefixed is None:
+        oks = stores[0][1][2][1].endswith("::new")
+    elif oks:
+        # result = lower(head) ++ T(tail) with (head, tail) = name.split_at(name.find(DASH)).  head holds no dash char, and
+        # on a non-dash char the transducer emits lower(c) and leaves in_dash false from either state (the `other` row
+        # checked above), so running it over head from the initial state yields lower(head) and ends in that state:
+        # the same as scanning the whole name.  lower(head) must come from a lower-caser verified char by char.
+        init = stores[0][1][2]
+        lk = init[1]
+        oks = lk in facts.bodies and len(init[2]) == 1 and norm(init[2][0]) == ("field", prefixed, "0") and table.get(("other", (False, True))) == want[("other", (False, True))]
+        if oks:
+            guardxform_obligations(ctx, facts, lk, rule)
+    ctx.ob(rule, "after the loop `*name = result` with result started empty" + (" (or as the lower-cased dash-free head)" if prefixed is not None else ""), oks, fn=key, site=site, detail=str([(b, nshow(t)[:80]) for b, t in stores]))
     # the two branches: slow path iff contains(DASH); fast path = the checked lower-caser
     pre_atoms = [models.canon_atom(a) for _, a in atoms_at(body, loop["header"])]
     okpre = any(c[0] == "contains-any" and set(c[1]) == {45, 95, 46} and c[2] == ("Input", 1) and c[3] is True for c in pre_atoms)
